@@ -30,6 +30,8 @@ CONTENTS = {
     'XY': lambda n: json.dumps({'X': pol(n + 200), 'Y': pol(n + 300)}),
     'EMPTY': lambda n: '{}',
     'EMPTYPOL': lambda n: json.dumps({'X': {}}),
+    # a definition that is present but grants nothing (sections without entries): valid, in force, and different from "not defined"
+    'EMPTYSEC': lambda n: json.dumps({'X': {'preset': {}}, 'Y': {'groups': {}}} if n % 2 else {'X': {'preset': {}, 'groups': {}}}),
     'BADJSON': lambda n: '{"X": {"preset": ',
     'BADTYPE': lambda n: json.dumps({'X': {'preset': {'NO_SUCH_TYPE': {'GET': 'ALLOW_ALL'}}}}),
     'BADPERM': lambda n: json.dumps({'X': pol(n), 'Y': {'preset': {'SYMMETRIC_KEY': {'GET': 'MAYBE'}}}}),
@@ -41,8 +43,8 @@ CONTENTS = {
     'DEEPARRAY': lambda n: '[' * 150000,
     'DEEPOBJECT': lambda n: '{"X": {"preset": ' * 60000,
 }
-VALID = {'X1', 'Y1', 'XY', 'EMPTY', 'EMPTYPOL', 'RESERVED', 'LEGACY'}
-QUICK_ALPHABET = ['X1', 'Y1', 'XY', 'EMPTY', 'BADJSON', 'BADPERM', 'RESERVED', 'NONOBJ']
+VALID = {'X1', 'Y1', 'XY', 'EMPTY', 'EMPTYPOL', 'EMPTYSEC', 'RESERVED', 'LEGACY'}
+QUICK_ALPHABET = ['X1', 'Y1', 'XY', 'EMPTY', 'EMPTYSEC', 'BADJSON', 'BADPERM', 'RESERVED', 'NONOBJ']
 
 
 def plan(tier):
